@@ -300,11 +300,16 @@ def _emit_fn(g, source, a, blocks, vacuity):
             if t.text == "|" and k >= 1:
                 prev = [x for x in tk[:k] if x.kind not in ("ws", "comment")]
                 nxt = [j for j in range(k + 1, len(tk)) if tk[j].kind not in ("ws", "comment")]
-                if prev and prev[-1].text == "(" and len(nxt) >= 3 and tk[nxt[0]].kind == "ident" and tk[nxt[1]].text == "|" and tk[nxt[2]].text != "{" and tk[nxt[2]].text != "->":
+                if prev and prev[-1].text == "(" and len(nxt) >= 3 and tk[nxt[0]].kind == "ident" and tk[nxt[1]].text == "|" and tk[nxt[2]].text != "->":
                     # body runs to the `)` that closes the enclosing call
                     open_idx = max(j for j in range(k) if tk[j].text == "(" and tk[j] is prev[-1])
                     close_idx = _mc(tk, open_idx)
                     expr = "".join(x.text for x in tk[nxt[2]:close_idx]).strip()
+                    if expr.startswith("{"):
+                        inner = expr[1:expr.rstrip().rfind("}")].strip()
+                        if ";" in inner or not expr.rstrip().endswith("}"):
+                            outp.append(t.text); k += 1; continue      # a statement block: not a value expression
+                        expr = inner
                     outp.append(f"|{tk[nxt[0]].text}| -> (o: {a['closure_ty']}) ensures o == {expr} {{ {expr} }}")
                     rules.append(("R18", f"closure `|{tk[nxt[0]].text}| {expr}` annotated with `ensures o == {expr}`"))
                     k = close_idx
@@ -349,6 +354,10 @@ def _emit_fn(g, source, a, blocks, vacuity):
             outp.append(t.text)
             k += 1
         body = "".join(outp)
+    if a.get("alias_get_mut"):
+        # R4e: with R4 the receiver already is `&mut self`; `self.get_mut()` (Pin::get_mut) is the identity
+        body = replace_pattern(body, "self.get_mut()", "self", f.name, int(a.get("alias_get_mut_count", 1)))
+        rules.append(("R4e", "`self.get_mut()` -> `self`"))
     if a.get("alias_this"):
         # R4c: with R4 the receiver already is `&mut self`; `let this = self.as_mut().get_mut();` (or `self.get_mut()`)
         # only re-borrows it.  The statement is dropped and the alias `this` is renamed to `self`.
